@@ -181,6 +181,8 @@ FIXTURES = [
     "(Blue, (Label/#, Green)), (Definition/Newdef/#, (Label/#, Green))", "(Blue, (Green, Label/#)), (Definition/Newdef/#, (Label/#, Green))",
     "(Definition/X/#, (Label/#)), (Label/#)", "(Label/#), (Definition/X/#, (Label/#))", "(Definition/X/#, (Label/#), (Label/#))",
     "(Definition/X/#, ((Label/#))), ((Label/#))", "(Red, (Definition/X/#, (Label/#)))", "(definition/X/#, (Label/#))", "Definition/X/#, (Label/#)",
+    "(Duration/3 s, (Red)), (Item, Agent, (Duration/3 s, (Red)))", "(Duration/3 s, (Red)), (Item, (Agent, (duration/3 s, (red))))",
+    "(Event-context, Red), (Item, (Event-context, Red))", "(Def/A, Onset), (Item, (Def/A, Onset))", "(Item, (Duration/3 s, (Red)))",
     "(),()", "((())),((()))", "(Red,()),(Red,())", "(Red,Blue),(Green),(Blue,Red)", "(Red,Blue),(Blue,Red)",
     "Label/ABC, Label/abc", "Label/ABC, Label/Abd, Label/abc", "Red, Blue, Red", "Red, Blue/Xx, Blue/xx", "Blue/Xx, Blue/Xx", "Label/a, Label/A", "Label/a, label/a",
 ]
@@ -737,6 +739,55 @@ class Gen:
         return text
 
 
+def toplevel_copy_cases(g, n):
+    """A correctly placed top-level tag group (each topLevelTagGroup tag of the schema; Def/Onset forms when definitions are
+    declared) AND a copy of it nested at depth >= 2 — identical, or respelled (other case / longer form), members in the same
+    order.  The rule itself (a topLevelTagGroup tag must sit in a group directly under the annotation) says the nested copy's
+    tag is misplaced, however equal the copy is to a real top-level group.  Returns (text, first index of the nested part)."""
+    v, rng = g.v, g.rng
+    builders = []
+    plain = lambda: g.form(rng.choice(g.noext))
+
+    def value_group(short):
+        i = g.by_short[short]
+        val = g.unit_text(v.value_child(i))
+        inner = rng.choice(g.noext)
+        return lambda: [g.form(i) + "/" + val, [g.form(inner)]]
+    for short in ("Duration", "Delay"):
+        if short in g.by_short and v.base(g.by_short[short])["tl"]:
+            builders.append(lambda short=short: value_group(short))
+    if "Event-context" in g.by_short:
+        def ec():
+            a, b = rng.sample(g.noext, 2)
+            return lambda: [g.spell("Event-context"), g.form(a), g.form(b)]
+        builders.append(ec)
+    names = {d[0] for d in getattr(v, "defs", [])}
+    for anchor, nm in (("Onset", "A"), ("Offset", "B"), ("Inset", "A")):
+        if anchor in g.by_short and nm in names:
+            def on(anchor=anchor, nm=nm):
+                inner = rng.choice(g.noext)
+                with_group = anchor != "Offset" and rng.random() < 0.6
+                return lambda: [g.spell("Def") + "/" + nm, g.spell(anchor)] + ([[g.form(inner)]] if with_group else [])
+            builders.append(on)
+    out = []
+    for k in range(n):
+        make = builders[k % len(builders)]()
+        top = make()
+        if k % 3 == 0:
+            copy = json.loads(json.dumps(top))              # the very same spelling
+        else:
+            copy = make()                                   # same entries, members in the same order, respelled
+        nest = [plain(), plain(), copy] if rng.random() < 0.5 else [plain(), [plain(), copy]]
+        if rng.random() < 0.5:
+            nest.reverse()
+        first = g.render([top])
+        sep = rng.choice([", ", ","])
+        lead = (plain() + sep) if rng.random() < 0.3 else ""
+        text = lead + first + sep + g.render([nest])
+        out.append((text, len(lead) + len(first)))
+    return out
+
+
 def definition_copy_cases(g, n):
     """A copy of a definition's inner group OUTSIDE the definition, members in the same and in the other order, at the top
     level and nested: only groups that are (inside) the Definition group are definition content (fix 5440313), so the
@@ -979,6 +1030,11 @@ def run_schema(ctx, name, n_grammar, n_fuzz, sweep):
                     continue
             for k in range(1, len(comps) + 1):
                 cases.append(("sweep", "conforming", v.ns + "/".join(comps[-k:]) + tail, False, dd is not None))
+    tl_from = {}
+    for text, start in toplevel_copy_cases(g, max(12, n_grammar // 60)):
+        ph = rng.random() < 0.5
+        tl_from[(text, ph)] = start
+        cases.append(("grammar", "toplevel_copy", text, ph, dd is not None))
     for text in definition_copy_cases(g, max(8, n_grammar // 100)):
         cases.append(("grammar", "definition_copy_placeholder", text, False, dd is not None))
     vc_expect = {}
@@ -992,6 +1048,8 @@ def run_schema(ctx, name, n_grammar, n_fuzz, sweep):
         if n_done % 2000 == 0:
             ctx.check_time()
         case = {"schema": name, "stream": stream, "kind": kind, "ph": ph, "text": text, "dict": needs_dict}
+        if kind == "toplevel_copy":
+            case["nested_from"] = tl_from[(text, ph)]
         if kind == "valueclass":
             case["vc"] = {"tag": v.long[vc_expect[text][0]], "value": vc_expect[text][2]}
         impl, exc = impl_validate(HedString, schema, text, ph, dd if needs_dict else None)
@@ -1023,6 +1081,12 @@ def run_schema(ctx, name, n_grammar, n_fuzz, sweep):
             ctx.count("oracle:skipped-impl-raises")
             continue
         errs = [i for i in impl if i[2] < 10]
+        if kind == "toplevel_copy":
+            # only the nested copy's placement: a TAG_GROUP_ERROR whose tag lies in the nested part of the text
+            ctx.count("inj:toplevel_copy")
+            if not any(i[1] == "TAG_GROUP_ERROR" and i[3] and i[3][0] >= case["nested_from"] for i in errs):
+                ctx.violation("nested-copy-of-a-top-level-group-not-reported-as-TAG_GROUP_ERROR", case, [i[:4] for i in impl][:6])
+            continue
         if kind == "valueclass":
             ti, exp, _ = vc_expect[text]
             combo = ",".join(v.attrs[ti]["vc"]) or "(none)"
@@ -1100,7 +1164,11 @@ def replay(ctx, rec):
     print("model:", json.dumps(sorted((canon_model(i) for i in m["issues"]), key=json.dumps)), "raises:", m["raises"])
     print("impl: ", json.dumps(impl), "raised:", exc)
     compare(ctx, case.get("stream", "replay"), case, m, impl, exc)
-    if exc is None and case.get("kind") == "valueclass":
+    if exc is None and case.get("kind") == "toplevel_copy":
+        errs = [i for i in impl if i[2] < 10]
+        if not any(i[1] == "TAG_GROUP_ERROR" and i[3] and i[3][0] >= case.get("nested_from", 0) for i in errs):
+            ctx.violation("nested-copy-of-a-top-level-group-not-reported-as-TAG_GROUP_ERROR", case, [i[:4] for i in impl][:6])
+    elif exc is None and case.get("kind") == "valueclass":
         ti = v.index[case["vc"]["tag"]]
         if v.attrs[ti]["vc"] and not v.attrs[ti]["uc"]:
             per = ref_value_classes(class_regex(), v.attrs[ti]["vc"], case["vc"]["value"])
